@@ -91,6 +91,18 @@ S3B(p, k) ==
                    start |-> st, target |-> tg] >>,
       ops |-> << <<"add", 1>>, <<"publish">> >> \o PollOps(pl, 1, tr) \o << <<"drain">> >> ]
 
+\* S3c: pacing of a compressed object: 400 compressible bytes (25 symbols of content, 2 - 4 symbols on the wire): the packets
+\* of the transfer, not the symbols of the content, share the target duration
+S3cP == {1, 2, 3} \X { <<"dur", 8>>, <<"dur", 30>>, <<"time", 20>> } \X { <<"none", 0>>, <<"delay", 3>> } \X {1, 2} \X {0, 5}
+S3cB(p, k) ==
+    [ fam |-> "S3c",
+      t0 |-> 2,
+      cfg |-> [scheme |-> 0, E |-> BigE, B |-> 8, interleave |-> 2, queues |-> << <<0, 2>> >>, mode |-> "full",
+               fdt_car |-> <<"delay", 100000>>],
+      objs |-> << [clen |-> 400, fill |-> "low", cenc |-> p[1], oti |-> Oti(p[5], 16, 4, IF p[5] = 0 THEN 0 ELSE 1, TRUE), count |-> p[4], car |-> p[3],
+                   target |-> p[2]] >>,
+      ops |-> << <<"add", 1>>, <<"publish">> >> \o PollOps(<<1, 1, 1, 2, 1, 1, 2, 5, 1, 1, 1, 2, 5, 1, 1, 1, 2, 5, 5, 5>>, 1, <<0, 0>>) \o << <<"drain">> >> ]
+
 -----------------------------------------------------------------------------
 (* S4: FDT content *)
 Nasty == << "plain", "a\"quote's", "x&y<z>", "]]>", "café-ü", "sp ace; q=\"1\"" >>
@@ -249,12 +261,12 @@ S9B(p, k) ==
 (* The parameter spaces are cartesian products (enumerated lazily by TLC, no set of big records is   *)
 (* ever built); the dependent parameter k is a second variable.                                      *)
 Params == CASE Family = "S1" -> S1P [] Family = "S3" -> S3P [] Family = "S4" -> S4P [] Family = "S4x" -> S4xP
-            [] Family = "S5" -> S5P [] Family = "S2" -> S2Cfgs [] Family = "S7" -> S7P [] Family = "S7b" -> S7bP [] Family = "S6" -> S6P [] Family = "S6b" -> S6bP [] Family = "S8" -> S8P [] Family = "S9" -> S9P [] Family = "S10" -> S10P [] OTHER -> {}
+            [] Family = "S5" -> S5P [] Family = "S2" -> S2Cfgs [] Family = "S7" -> S7P [] Family = "S7b" -> S7bP [] Family = "S6" -> S6P [] Family = "S6b" -> S6bP [] Family = "S8" -> S8P [] Family = "S9" -> S9P [] Family = "S10" -> S10P [] Family = "S3c" -> S3cP [] OTHER -> {}
 KRange(p) == CASE Family = "S1" -> S1K(p) [] Family = "S3" -> S3K(p) [] Family = "S4" -> S4K(p)
                [] Family = "S5" -> S5K(p) [] Family = "S9" -> S9K(p) [] Family = "S7" -> S7K(p) [] Family = "S7b" -> {1, 3, 1000} [] OTHER -> {0}
 Build(p, k) == CASE Family = "S1" -> S1B(p, k) [] Family = "S3" -> S3B(p, k) [] Family = "S4" -> S4B(p, k)
                  [] Family = "S4x" -> S4xB(p, k) [] Family = "S5" -> S5B(p, k) [] Family = "S7" -> S7B(p, k)
-                 [] Family = "S7b" -> S7bB(p, k) [] Family = "S6" -> S6B(p, k) [] Family = "S6b" -> S6bB(p, k) [] Family = "S8" -> S8B(p, k) [] Family = "S9" -> S9B(p, k) [] Family = "S10" -> S10B(p, k)
+                 [] Family = "S7b" -> S7bB(p, k) [] Family = "S6" -> S6B(p, k) [] Family = "S6b" -> S6bB(p, k) [] Family = "S8" -> S8B(p, k) [] Family = "S9" -> S9B(p, k) [] Family = "S10" -> S10B(p, k) [] Family = "S3c" -> S3cB(p, k)
 
 VARIABLES b, k, h
 Init == b \in Params /\ k \in KRange(b) /\ h = <<>>
